@@ -2,8 +2,12 @@
    real slices package (backing array up to the capacity, length, arguments)
    together with what it observed afterwards (backing array up to the
    capacity and length of the resulting slice, panic or not); [check_case]
-   re-runs the model on the same input and compares. The growth policy of
-   append is instantiated with the capacity the harness observed.
+   re-runs the model on the same input and compares what the property fixes
+   (see the comment above [check_case]). The growth policy of append is
+   instantiated with the capacity the harness observed; since capacities and
+   what lies behind the length are not compared, it has no effect on the verdict.
+   Inputs outside the property (negative removal length, negative Repeat /
+   Grow count) are evaluated but not judged.
    Definitions only. *)
 From Typ Require Export Lib.Base Slices.Splice.
 
@@ -56,7 +60,11 @@ Definition is_panic {X} (r : result X) : bool := match r with Panic _ => true | 
 Definition whole_array (f : fn) : bool := match f with FFill | FReverse => true | _ => false end.
 Definition state_after_panic (f : fn) : bool := match f with FRemove | FRemoveSlice => true | _ => false end.
 
-Definition check_case (c : case) : bool :=
+(* outside the property: RemoveSlice with a negative length, Repeat / Grow with a negative count *)
+Definition outside_property (c : case) : bool :=
+  match c_fn c with FRemoveSlice | FRepeat | FGrow => (c_k c <? 0)%Z | _ => false end.
+
+Definition check_case_strict (c : case) : bool :=
   let '(s, r) := run_case c in
   Bool.eqb (is_panic r) (is_panic (c_obs c)) &&
   (if is_panic r && negb (state_after_panic (c_fn c)) then true
@@ -64,3 +72,9 @@ Definition check_case (c : case) : bool :=
    then list_eqb Z.eqb (arr s) (c_obs_arr c) && (Z.of_nat (len s) =? c_obs_len c)%Z
    else (Z.of_nat (len s) =? c_obs_len c)%Z &&
         list_eqb Z.eqb (visible s) (firstn (Z.to_nat (c_obs_len c)) (c_obs_arr c))).
+
+(* cases outside the property are evaluated on the model (they stay in the stream) but never fail
+   the check; the harness records as a stat whether the code still behaves as transcribed there *)
+Definition check_case (c : case) : bool :=
+  let verdict := check_case_strict c in
+  if outside_property c then true else verdict.
